@@ -37,7 +37,7 @@ def join(a: State, b: State, cond=None) -> State:
     if not b.alive:
         return a.copy()
     out = State()
-    for k in set(a.locals) | set(b.locals):
+    for k in list(a.locals) + [k_ for k_ in b.locals if k_ not in a.locals]:      # deterministic order (insertion order matters to readers of the state)
         va, vb = a.locals.get(k), b.locals.get(k)
         if va is not None and vb is not None and va == vb:
             out.locals[k] = va
@@ -46,7 +46,7 @@ def join(a: State, b: State, cond=None) -> State:
         else:
             _phi_counter[0] += 1
             out.locals[k] = Poly.atom(f"phi#{_phi_counter[0]}({k})")
-    for k in set(a.slots) | set(b.slots):
+    for k in list(a.slots) + [k_ for k_ in b.slots if k_ not in a.slots]:
         va, vb = a.slots.get(k), b.slots.get(k)
         if va is not None and vb is not None and va == vb:
             out.slots[k] = va
